@@ -2880,6 +2880,19 @@ def remove_redundant_chain_casts(source: str) -> str:
             yield node, ast.Tuple(elts=elts)
 
 
+def _name_mentions(node: ast.AST, name: str) -> int:
+    """How many times the name occurs in the node."""
+    return sum(isinstance(child, ast.Name) and child.id == name for child in ast.walk(node))
+
+
+def _fill_statements_not_reading(name: str, matches: Sequence) -> list:
+    """The leading statements (matches of a statement template) that mention the collection `name`
+    only as the object they fill. A statement such as `x.append(len(x))` reads the collection as it
+    is at that point, so it cannot be folded into the expression that creates the collection, and
+    neither can the statements behind it."""
+    return list(itertools.takewhile(lambda m: _name_mentions(m.root, name) == 1, matches))
+
+
 @processing.fix
 def replace_dict_assign_with_dict_literal(source: str) -> str:
     root = core.parse(source)
@@ -2901,6 +2914,10 @@ def replace_dict_assign_with_dict_literal(source: str) -> str:
     for transaction, (first, *matches) in enumerate(
         core.walk_sequence(root, *template, expand_last=True)
     ):
+        matches = _fill_statements_not_reading(first.target.id, matches)
+        if not matches:
+            continue
+
         replacement = ast.Assign(
             targets=[first.target],
             value=ast.Dict(
@@ -2935,6 +2952,10 @@ def replace_dict_update_with_dict_literal(source: str) -> str:
     for transaction, (first, *matches) in enumerate(
         core.walk_sequence(root, *template, expand_last=True)
     ):
+        matches = _fill_statements_not_reading(first.target.id, matches)
+        if not matches:
+            continue
+
         replacement = ast.Assign(
             targets=[first.target],
             value=ast.Dict(
@@ -2966,6 +2987,10 @@ def replace_dictcomp_assign_with_dict_literal(source: str) -> str:
     for transaction, (first, *matches) in enumerate(
         core.walk_sequence(root, *template, expand_last=True)
     ):
+        matches = _fill_statements_not_reading(first.target.id, matches)
+        if not matches:
+            continue
+
         replacement = ast.Assign(
             targets=[first.target],
             value=ast.Dict(
@@ -2996,6 +3021,10 @@ def replace_dictcomp_update_with_dict_literal(source: str) -> str:
     for transaction, (first, *matches) in enumerate(
         core.walk_sequence(root, *template, expand_last=True)
     ):
+        matches = _fill_statements_not_reading(first.target.id, matches)
+        if not matches:
+            continue
+
         replacement = ast.Assign(
             targets=[first.target],
             value=ast.Dict(
@@ -3234,6 +3263,10 @@ def replace_collection_add_update_with_collection_literal(source: str) -> str:
     for transaction, (node, *matches) in enumerate(
         core.walk_sequence(root, *template, expand_last=True)
     ):
+        matches = _fill_statements_not_reading(node.common_target.id, matches)
+        if not matches:
+            continue
+
         assigned_value = node.root.value
         other_elts = []
         for m in matches:
